@@ -538,8 +538,10 @@ class HashModel:
         k = self.kind
         if k == "xof":
             # read(170) crosses the rate boundary of every XOF here (168 / 136 bytes) in a single call
+            # and read(rate) ends exactly ON the boundary (168 bytes for the 128-bit XOFs, 136 for the 256-bit ones)
+            rate = 136 if "256" in self.name else 168
             self.alphabet = [("update", M1), ("update", b""), ("read", 1), ("read", 0), ("read", 40), ("copy",),
-                             ("update", M2), ("read", 170)]
+                             ("update", M2), ("read", 170), ("read", rate)]
         else:
             self.alphabet = [("update", M1), ("update", b""), ("digest",), ("hexdigest",), ("copy",), ("update", M2)]
             if "mac" in k:
